@@ -87,6 +87,8 @@ pub struct Hist {
     pub next_payload: u32,
     /// C18 runs: what is observed in a step that called an unsafe fast path refutes C18
     pub retag_unchecked: bool,
+    /// self-counting element families: live objects when the history started
+    pub live_base: i64,
 }
 impl Hist {
     pub fn new(hist: u64) -> Self {
@@ -99,6 +101,7 @@ impl Hist {
             next_tag: 1,
             next_payload: 100,
             retag_unchecked: false,
+            live_base: 0,
         }
     }
     pub fn begin_step(&mut self, op: &'static str, descr: String) {
@@ -147,5 +150,71 @@ pub fn mem_prop(prop: &str) -> &'static str {
         "C18" => "C18",
         "C19" => "C19",
         _ => "C02",
+    }
+}
+
+/// Ways of consuming an iterator other than a plain `next()` loop: std adaptor and consumer
+/// methods that an iterator type may override (nth, last, count, fold, ...) or that are built on
+/// such overrides (skip -> nth, step_by -> nth, for_each -> fold, ...).
+pub const STYLES: [&str; 11] = ["next", "nth", "skip", "step_by(2)", "last", "fold", "count", "for_each", "take", "by_ref.nth+rest", "step_by(3)"];
+
+/// Consume `it` in the given style.  Returns the items it yielded, the positions (in the
+/// iterator's own `next()` order) those items must be, and the value of `count()` if that was
+/// the style.  `j` is the style's parameter (how many to skip / which to take).
+pub fn drive<I: Iterator>(mut it: I, style: usize, j: usize, len0: usize) -> (Vec<I::Item>, Vec<usize>, Option<usize>) {
+    let all: Vec<usize> = (0..len0).collect();
+    match style {
+        1 => {
+            let x = it.nth(j);
+            let pos = if j < len0 { vec![j] } else { vec![] };
+            (x.into_iter().collect(), pos, None)
+        }
+        2 => (it.skip(j).collect(), all.into_iter().skip(j).collect(), None),
+        3 => (it.step_by(2).collect(), all.into_iter().step_by(2).collect(), None),
+        10 => (it.step_by(3).collect(), all.into_iter().step_by(3).collect(), None),
+        4 => {
+            let x = it.last();
+            (x.into_iter().collect(), if len0 > 0 { vec![len0 - 1] } else { vec![] }, None)
+        }
+        5 => (
+            it.fold(Vec::new(), |mut acc, x| {
+                acc.push(x);
+                acc
+            }),
+            all,
+            None,
+        ),
+        6 => {
+            let c = it.count();
+            (Vec::new(), Vec::new(), Some(c))
+        }
+        7 => {
+            let mut v = Vec::new();
+            it.for_each(|x| v.push(x));
+            (v, all, None)
+        }
+        8 => (it.take(j).collect(), all.into_iter().take(j).collect(), None),
+        9 => {
+            let mut v: Vec<I::Item> = Vec::new();
+            let mut pos = Vec::new();
+            if let Some(x) = it.by_ref().nth(j) {
+                v.push(x);
+                pos.push(j);
+            }
+            let mut p = j + 1;
+            for x in it {
+                v.push(x);
+                pos.push(p);
+                p += 1;
+            }
+            (v, pos, None)
+        }
+        _ => {
+            let mut v = Vec::new();
+            for x in it {
+                v.push(x);
+            }
+            (v, all, None)
+        }
     }
 }
